@@ -341,6 +341,22 @@ class Repo:
         cands = [c for q, c in ac.items() if q.endswith("." + short)]
         if len(cands) == 1:
             return cands[0]
+        if not cands:
+            # the class may have moved to another module and be imported back under its name (the anchor is the name as seen
+            # from the module that used to define it), or be the only class of that bare name in the package
+            parts = short.split(".")
+            for cut in range(len(parts) - 1, 0, -1):
+                mod = "pydsdl." + ".".join(parts[:cut])
+                if mod in self.modules:
+                    r: Any = self.module_member(mod, parts[cut])
+                    for inner in parts[cut + 1 :]:
+                        r = r.inner.get(inner) if isinstance(r, ClassInfo) else None
+                    if isinstance(r, ClassInfo):
+                        return r
+                    break
+            bare = [c for c in ac.values() if c.qualname.split(".")[-1] == parts[-1] and len(parts) >= 1 and (len(parts) < 2 or True)]
+            if len(parts) >= 1 and len([c for c in bare if c.name == parts[-1]]) == 1 and parts[-1][:1].isupper() or (len(bare) == 1 and parts[-1].startswith("_")):
+                return [c for c in bare if c.name == parts[-1]][0]
         raise AnalysisError("anchor class %s %s" % (short, "is ambiguous" if cands else "not found"))
 
     def func(self, short: str) -> FuncInfo:
@@ -352,6 +368,21 @@ class Repo:
         cands = [f for q, f in af.items() if q.endswith("." + short)]
         if len(cands) == 1:
             return cands[0]
+        if not cands:
+            # moved to another module and imported back under its name, or a method of a class that moved
+            parts = short.split(".")
+            for cut in range(len(parts) - 1, 0, -1):
+                mod = "pydsdl." + ".".join(parts[:cut])
+                if mod in self.modules:
+                    r: Any = self.module_member(mod, parts[cut])
+                    for inner in parts[cut + 1 :]:
+                        if isinstance(r, ClassInfo):
+                            r = r.methods.get(inner) or r.inner.get(inner)
+                        else:
+                            r = None
+                    if isinstance(r, FuncInfo):
+                        return r
+                    break
         raise AnalysisError("anchor function %s %s" % (short, "is ambiguous" if cands else "not found"))
 
     def has_func(self, short: str) -> bool:
